@@ -76,6 +76,7 @@ func GenerateServerCertificates(
 				err = verifyGenerateCertificatesRequest(n, req)
 				if err != nil {
 					errs = errors.Join(errs, err)
+					continue
 				}
 				authorized = true
 				break
